@@ -39,6 +39,11 @@ pub struct Params {
     pub second_master: u8,
     #[serde(default)]
     pub second_master_off_s: f64,
+    /// the slave is a boundary clock: a second port (P2P) is first slave of a worse clock on its
+    /// own link (the master's link comes up 8 s later), then master there; it keeps measuring its
+    /// link delay against a responding peer while port 1 is slave of the master
+    #[serde(default)]
+    pub bc_p2p_sibling: bool,
 }
 
 pub struct Outcome {
@@ -93,7 +98,7 @@ pub fn clean_class_deadlines(p: &Params) -> Option<(f64, f64)> {
     }
     // with a second master on the segment the slave may follow that one first (it announces
     // earlier); the calibration was made without it, so only the generic bound applies
-    if p.second_master > 0 {
+    if p.second_master > 0 || p.bc_p2p_sibling {
         return None;
     }
     if !(-3..=1).contains(&p.log_sync) || !(-3..=1).contains(&p.log_delay) {
@@ -147,6 +152,10 @@ pub fn simulate(p: &Params, horizon_s: f64) -> Outcome {
     sb.filter = Some(FilterCfg::Kalman(KalmanConfiguration::default()));
     sb.clock = Some(sclock.clone());
     sb.seed = p.seed ^ 2;
+    if p.bc_p2p_sibling {
+        sb.n_ports = 2;
+        sb.p2p_ports = vec![false, true];
+    }
     let Ok(s) = sb.build() else { return out };
     let mi = sim.add_node(m.node, (p.seed % 1_000_000_000) as u64);
     let si = sim.add_node(s.node, ((p.seed >> 20) % 1_000_000_000) as u64);
@@ -172,7 +181,27 @@ pub fn simulate(p: &Params, horizon_s: f64) -> Outcome {
         sim.sync_seq_lockstep = Some((m2i, mi, p.second_master as u16 - 1));
         ends.push((m2i, 0));
     }
-    sim.add_link(ends, p.delay_ns, p.jitter_ns, 0.0);
+    let master_link = sim.add_link(ends, p.delay_ns, p.jitter_ns, 0.0);
+    let mut master_link_up = true;
+    if p.bc_p2p_sibling {
+        let c3 = Arc::new(Mutex::new(SimClock::new(0, (t0 as i128 + (p.second_master_off_s * 1e9 * 4294967296.0) as i128) as u128, 0.0)));
+        c3.lock().unwrap().record = false;
+        let mut b3 = Build::new(0x40);
+        b3.priority1 = 150;
+        b3.p2p = true;
+        b3.log_sync = p.log_sync;
+        b3.log_delay = p.log_delay;
+        b3.clock = Some(c3);
+        b3.seed = p.seed ^ 4;
+        let Ok(n3) = b3.build() else { return out };
+        let n3i = sim.add_node(n3.node, ((p.seed >> 30) % 1_000_000_000) as u64);
+        while sim.one_step.len() <= n3i {
+            sim.one_step.push(false);
+        }
+        sim.add_link(vec![(si, 1), (n3i, 0)], p.delay_ns, p.jitter_ns, 0.0);
+        sim.set_link(master_link, false);
+        master_link_up = false;
+    }
     let bound = bound_ns(p);
     let tc = tc_s(p);
     let horizon = (horizon_s * 1e9) as u64;
@@ -184,6 +213,10 @@ pub fn simulate(p: &Params, horizon_s: f64) -> Outcome {
         let Some(nt) = sim.next_time() else { break };
         if nt > horizon {
             break;
+        }
+        if !master_link_up && nt >= 8_000_000_000 {
+            sim.set_link(master_link, true);
+            master_link_up = true;
         }
         while next_sample <= nt {
             // truth at the sample instant
@@ -238,7 +271,7 @@ pub fn gen_params(rng: &mut StdRng, i: u64) -> Params {
     // corners + latin-hypercube-ish random interior
     let corner = i % 4 == 0;
     let pick = |rng: &mut StdRng, lo: f64, hi: f64| if corner { if rng.gen_bool(0.5) { lo } else { hi } } else { rng.gen_range(lo..=hi) };
-    Params {
+    let p = Params {
         offset_s: pick(rng, -10.0, 10.0) * if rng.gen_bool(0.15) { 1e-4 } else { 1.0 },
         ppm: pick(rng, -150.0, 150.0),
         delay_ns: pick(rng, 1_000.0, 400_000.0) as u64,
@@ -251,7 +284,13 @@ pub fn gen_params(rng: &mut StdRng, i: u64) -> Params {
         base_kind: [0u8, 0, 0, 0, 1, 2][rng.gen_range(0..6)],
         second_master: [0u8, 0, 0, 0, 1, 2, 2][rng.gen_range(0..7)],
         second_master_off_s: [0.001, -0.004, 0.3, -1.7][rng.gen_range(0..4)] * rng.gen_range(0.5..1.0),
+        bc_p2p_sibling: false,
+    };
+    let mut p = p;
+    if p.second_master == 0 && rng.gen_bool(0.2) {
+        p.bc_p2p_sibling = true;
     }
+    p
 }
 
 pub fn run_case(rep: &mut Report, p: &Params, hist: &mut Vec<f64>, conv: &mut Vec<f64>) {
@@ -277,6 +316,9 @@ pub fn run_case(rep: &mut Report, p: &Params, hist: &mut Vec<f64>, conv: &mut Ve
     }
     if p.second_master > 0 {
         rep.ev("closed_loop_run_with_second_master_on_segment");
+    }
+    if p.bc_p2p_sibling {
+        rep.ev("closed_loop_run_boundary_clock_with_p2p_sibling_port");
     }
     if let Ok(path) = std::env::var("VP_C02_DUMP") {
         use std::io::Write;
@@ -342,7 +384,7 @@ pub fn run_case(rep: &mut Report, p: &Params, hist: &mut Vec<f64>, conv: &mut Ve
 
 pub fn run(rep: &mut Report, tier: &str, seed: u64, shard: (u32, u32), replay: Option<&str>) {
     rep.rule = "closed-loop runs: real statime master port (perfect clock) and real slave port with the default Kalman servo over a clock model with initial offset in +-10 s, oscillator error in +-150 ppm, symmetric delay 1-400 us, jitter 0-20 us, sync/delay intervals 2^-3..2^1 s, one-/two-step; corners and random interior points; truth sampled every 100 ms of virtual time; distinct = distinct parameter points; non-trivial = the port became slave and the servo issued commands".into();
-    rep.require(&["closed_loop_run", "set_frequency_calls", "step_clock_calls", "clean_class_run", "closed_loop_run_with_second_master_on_segment"]);
+    rep.require(&["closed_loop_run", "set_frequency_calls", "step_clock_calls", "clean_class_run", "closed_loop_run_with_second_master_on_segment", "closed_loop_run_boundary_clock_with_p2p_sibling_port"]);
     if let Some(path) = replay {
         let v: serde_json::Value = serde_json::from_str(&std::fs::read_to_string(path).unwrap()).unwrap();
         if let Ok(p) = serde_json::from_value::<Params>(v["case"].clone()) {
